@@ -335,6 +335,11 @@ func ModelConn(svc ServiceSpec, frames []FrameSpec, stopAfter int, scripts map[i
 						cm.Refused[cid] = append(cm.Refused[cid], ai)
 						continue
 					}
+					if a.Params != "" && !json.Valid([]byte(a.Params)) {
+						// parameters that are not one JSON document cannot be put on the wire
+						cm.Refused[cid] = append(cm.Refused[cid], ai)
+						continue
+					}
 					cm.Accepted[cid] = append(cm.Accepted[cid], ai)
 					emit(ReplyModel{Cid: cid, Params: normParams(a.Params), Continues: a.Continues})
 				case "error":
